@@ -161,6 +161,18 @@ func (x *Exec) callMethod(st *State, call *ast.CallExpr, f *ast.SelectorExpr, se
 	sig := m.Type().(*types.Signature)
 	_, ptrRecv := sig.Recv().Type().(*types.Pointer)
 	_, xIsPtr := recvStatic.Underlying().(*types.Pointer)
+	if m.Pkg() != nil && m.Pkg().Path() == "sync" && !xIsPtr {
+		switch recvName(sig.Recv().Type()) + "." + m.Name() {
+		case "RWMutex.RLock", "RWMutex.RUnlock", "RWMutex.Lock", "RWMutex.Unlock", "Mutex.Lock", "Mutex.Unlock":
+			// a mutex held in a struct field: its identity is the field of its
+			// enclosing object, not a temporary address
+			if id, ok := x.lockIdentity(st, f.X); ok {
+				x.extUsed["sync."+recvName(sig.Recv().Type())+"."+m.Name()]++
+				x.lockOp(st, m.Name(), id, call)
+				return nil
+			}
+		}
+	}
 	var recv *Term
 	var writeBack func(st *State)
 	switch {
@@ -198,6 +210,23 @@ func (x *Exec) callMethod(st *State, call *ast.CallExpr, f *ast.SelectorExpr, se
 		writeBack(st)
 	}
 	return rs
+}
+
+// lockIdentity: a stable identity for a mutex denoted by an addressable
+// expression: the mutex field (by path) of the object that contains it.
+func (x *Exec) lockIdentity(st *State, e ast.Expr) (*Term, bool) {
+	if ref, ok := x.tryAddress(st, e); ok {
+		return ref, true
+	}
+	defer func() { recover() }()
+	pl := x.place(st, e)
+	switch pl.kind {
+	case plCell:
+		return x.app("lockid!"+sanitize(typeStr(pl.typ))+"!"+strings.Trim(strings.ReplaceAll(fmt.Sprint(pl.path), " ", "_"), "[]"), SInt, pl.ref), true
+	case plGlobal:
+		return x.app("lockid!"+sanitize(pl.gheap)+"!"+strings.Trim(strings.ReplaceAll(fmt.Sprint(pl.path), " ", "_"), "[]"), SInt, IntLit(0)), true
+	}
+	return nil, false
 }
 
 func (x *Exec) tryAddress(st *State, e ast.Expr) (*Term, bool) {
@@ -1371,6 +1400,20 @@ func (x *Exec) evalMarker(st *State, call *ast.CallExpr, name string) *Term {
 		body := x.eval(tmp, closureExpr(fl))
 		delete(x.boundVars, pv)
 		return Forall([]*Term{bv}, Implies(And(Lt(IntLit(0), bv), Lt(bv, es.alloc)), body))
+	case "__rlocks", "__wlocked":
+		var mu *Term
+		if ue, ok := ast.Unparen(call.Args[0]).(*ast.UnaryExpr); ok && ue.Op == token.AND {
+			if id, ok := x.lockIdentity(st, ue.X); ok {
+				mu = id
+			}
+		}
+		if mu == nil {
+			mu = x.eval(st, call.Args[0])
+		}
+		if name == "__rlocks" {
+			return x.hread(st, "ghost$rlocks", SInt, mu)
+		}
+		return x.hread(st, "ghost$wlocked", SBool, mu)
 	case "__haskey":
 		m := x.eval(st, call.Args[0])
 		mt, okm := x.typeOf(call.Args[0]).Underlying().(*types.Map)
